@@ -622,7 +622,7 @@ impl S3 for FileSystem {
             ..
         } = req.input;
 
-        if part_number > 10_000 {
+        if !(1..=10_000).contains(&part_number) {
             return Err(s3_error!(
                 InvalidArgument,
                 "Part number must be an integer between 1 and 10000, inclusive"
@@ -658,8 +658,15 @@ impl S3 for FileSystem {
     async fn upload_part_copy(&self, req: S3Request<UploadPartCopyInput>) -> S3Result<S3Response<UploadPartCopyOutput>> {
         let input = req.input;
 
-        let upload_id = Uuid::parse_str(&input.upload_id).map_err(|_| s3_error!(NoSuchUpload))?;
         let part_number = input.part_number;
+        if !(1..=10_000).contains(&part_number) {
+            return Err(s3_error!(
+                InvalidArgument,
+                "Part number must be an integer between 1 and 10000, inclusive"
+            ));
+        }
+
+        let upload_id = Uuid::parse_str(&input.upload_id).map_err(|_| s3_error!(NoSuchUpload))?;
         self.verify_upload_id(req.credentials.as_ref(), &upload_id).await?;
 
         let (src_bucket, src_key) = match input.copy_source {
